@@ -516,6 +516,7 @@ pub fn gen_ent(r: &mut Rng, tier: &str, emit: &mut dyn FnMut(String)) {
         ("gicmsi", "gicmsi/-/-/-/".into(), s(&["set=0.5", "set=1.4096", "spi=3.40", "spi=9.1"])),
         ("gicc", "gicc/1/-/-/".into(), s(&["pi=23.0", "pi=24.1", "mi=25.0", "mi=26.1", "set=2.77"])),
         ("cache", "cache/-/-/-/".into(), s(&["size=1", "sets=2", "assoc=3", "alloc=1", "ctype=2", "wp=1", "line=64", "id=9"])),
+        ("proc", "proc/0,7/-/-/".into(), s(&["physical", "valid", "thread", "leaf", "identical"])),
     ];
     for (_, prefix, names) in &families {
         for sub in subsets(names) {
